@@ -17,7 +17,9 @@ REPO = os.environ.get("VERIF_REPO", "/repo")
 # evidence/<id>.json is only ever written by a run against /repo itself.
 _OV = os.environ.get("VERIF_OVERLAY")
 BUILD = os.path.join(ROOT, ".build") if not _OV else os.path.join(ROOT, ".build", "ov-" + hashlib.sha256(_OV.encode()).hexdigest()[:10])
-EVDIR = os.environ.get("VERIF_EVIDENCE_DIR") or (os.path.join(ROOT, "evidence") if not _OV else os.path.join(ROOT, ".run", "ov-evidence"))
+# VERIF_ONLY=<regex over campaign names> (development aid): run only those sub-campaigns, no replays; evidence kept apart as well
+_ONLY = os.environ.get("VERIF_ONLY")
+EVDIR = os.environ.get("VERIF_EVIDENCE_DIR") or (os.path.join(ROOT, "evidence") if not (_OV or _ONLY) else os.path.join(ROOT, ".run", "ov-evidence"))
 TOOLCHAIN = "/root/go/pkg/mod/golang.org/toolchain@v0.0.1-go1.25.0.linux-amd64/bin"
 
 sys.path.insert(0, ROOT)
@@ -184,11 +186,12 @@ def cmd_run(pid, tier, keep=False):
     replays = sorted(glob.glob(os.path.join(ROOT, "replays", pid, "*.json")))
     replay_results = {}
     replay_job = None
-    if replays and spec.get("replay", True):
+    if replays and spec.get("replay", True) and not _ONLY:
         e = mkenv("replay")
         e["VERIF_REPLAY_FILES"] = "\n".join(replays)
         e["VERIF_REPLAY_OUT"] = os.path.join(rundir, "replay-out.json")
-        e["VERIF_INSTANCE"] = str(int(os.environ.get("VERIF_INSTANCE_OFFSET", "0")) // 16 + 30)
+        # the replay process gets loopback addresses of its own (instances 0.. belong to the campaign processes of this run)
+        e["VERIF_INSTANCE"] = str(int(os.environ.get("VERIF_INSTANCE_OFFSET", "0")) + 100)
         lp = os.path.join(rundir, "replay.log")
         rt = spec.get("replay_timeout", 900)
         replay_job = ("replay", [testbin, "-test.run", "^TestReplay$", "-test.count=1", "-test.timeout=%ds" % rt], e, lp, rt)
@@ -226,6 +229,10 @@ def cmd_run(pid, tier, keep=False):
         b = c[tier] if tier in c else c["quick"]
         if b is None:
             continue
+        if _ONLY:
+            import re
+            if not re.search(_ONLY, c["name"]):
+                continue
         procs = min(b.get("procs", 1), ncpu)
         for i in range(procs):
             tag = "%s-%d" % (c["name"], i)
@@ -418,9 +425,10 @@ def cmd_replay(path):
     testbin = build_test(pid)
     bindir = build_bins(pid, spec["bins"]) if spec.get("bins") else ""
     e = goenv()
-    out = os.path.join(BUILD, pid, "replay-out.json")
+    out = os.path.join(BUILD, pid, "replay-out-%d.json" % os.getpid())
     if os.path.exists(out):
         os.remove(out)
+    e["VERIF_INSTANCE"] = str(int(os.environ.get("VERIF_INSTANCE_OFFSET", "0")) + 100)
     e.update({"VERIF_REPLAY_FILES": path, "VERIF_REPLAY_OUT": out, "VERIF_BIN": bindir, "VERIF_ROOT": ROOT, "VERIF_TIER": "quick", "VERIF_TAG": "replay"})
     rc, o = sh([testbin, "-test.run", "^TestReplay$", "-test.count=1", "-test.v"], os.path.join(BUILD, pid), env=e, timeout=1800)
     res = json.load(open(out)).get(path) if os.path.exists(out) else None
